@@ -385,10 +385,15 @@ def sampler_edits(ms, loc, g, out):
     v = differ(g, pl["note_samples"][i], lambda: g.pick(0, 255))
     out.append(Edit(f"{base}/payload/note_samples[{i}]", (lambda root, i=i, v=v: nav(root, loc).note_samples.__setitem__(list(nav(root, loc).note_samples)[i], v)), v, cls="sampler-map"))
     # the two ends of the map (the lowest and the highest note)
-    for end in (0, len(pl["note_samples"]) - 1):
-        v_end = differ(g, pl["note_samples"][end], lambda: g.pick(1, 255))
+    # (addressed the documented way, by note: the map runs from C0 to a9, 119 notes)
+    for end, note_name in ((0, "C0"), (118, "a9"), (117, "A9")):
+        old_end = pl["note_samples"][end] if end < len(pl["note_samples"]) else None
+        v_end = differ(g, old_end, lambda: g.pick(1, 255))
         if v_end is not None:
-            out.append(Edit(f"{base}/payload/note_samples[{end}]", (lambda root, i=end, v=v_end: nav(root, loc).note_samples.__setitem__(list(nav(root, loc).note_samples)[i], v)), v_end, cls="sampler-map-ends"))
+            def set_by_note(root, nn=note_name, v=v_end):
+                import rv.api as api
+                nav(root, loc).note_samples[api.NOTE[nn]] = v
+            out.append(Edit(f"{base}/payload/note_samples[{end}]", set_by_note, v_end, cls="sampler-map-ends"))
     # the map is a dict: the bulk mutators are public too
     j = rng.randrange(119)
     if j != i:
